@@ -81,6 +81,12 @@ type Config struct {
 	Name string
 	// Bound is the deviation bound (inclusive).
 	Bound int
+	// DelayBound makes EVERY departure from the default scheduler choice cost one
+	// deviation, also where the goroutine that ran last is not enabled any more
+	// (delay bounding, Emmi/Qadeer/Rakamaric 2011). Without it such switches are
+	// free (preemption bounding), which is exponential in the number of blocking
+	// points of the scenario.
+	DelayBound bool
 	// ChoiceBound, if > 0, is a separate budget for non-default data choices
 	// (injected faults ...); Bound then limits preemptions only. With 0 data
 	// choices and preemptions share Bound.
@@ -348,6 +354,8 @@ func runOne(t *testing.T, cfg *Config, prefix []int) (res execResult) {
 	s := vsync.New()
 	vsync.Install(s)
 	x := &X{S: s, cfg: cfg, prefix: prefix, gate: make(chan struct{})}
+	vsync.Chooser = x.Choose
+	defer func() { vsync.Chooser = nil }()
 	func() {
 		defer func() {
 			// synctest.Test panics when goroutines of the bubble are still blocked
@@ -418,6 +426,10 @@ func Explore(t *testing.T, cfg *Config, res *vk.Result, deadline time.Time) {
 	if cfg.ChoiceBound > 0 {
 		sc.Bound = fmt.Sprintf("all executions with <= %d preemptions and <= %d non-default data choices (injected faults)", cfg.Bound, cfg.ChoiceBound)
 	}
+	if cfg.DelayBound {
+		sc.Bound = strings.Replace(sc.Bound, "preemptions", "scheduling deviations from the default scheduler (delay bounding: also non-preempting switches count)", 1)
+		sc.Bound = strings.Replace(sc.Bound, "deviations (preemptions,", "deviations (any departure from the default scheduler choice,", 1)
+	}
 	type item struct {
 		prefix []int
 		cost   int // preemptions (and data choices when they share the budget)
@@ -436,6 +448,12 @@ func Explore(t *testing.T, cfg *Config, res *vk.Result, deadline time.Time) {
 	top := 0 // index of direct children of the root, for sharding
 	var execs int64
 	reported := map[string]bool{}
+	diverged := 0
+	defer func() {
+		if diverged > 0 {
+			sc.Note = strings.TrimSpace(sc.Note + fmt.Sprintf(" %d subtrees skipped because their prefix could not be replayed (nondeterminism inside perkeep that the scheduler does not own)", diverged))
+		}
+	}()
 	for pending() > 0 {
 		lv := 0
 		for len(levels[lv]) == 0 {
@@ -452,7 +470,7 @@ func Explore(t *testing.T, cfg *Config, res *vk.Result, deadline time.Time) {
 			runtime.GC()
 		}
 		r := runOne(t, cfg, it.prefix)
-		for retry := 0; r.diverged != "" && retry < 3; retry++ {
+		for retry := 0; r.diverged != "" && retry < 12; retry++ {
 			// rare runtime-level nondeterminism (GC, preemption) can reorder freshly
 			// spawned goroutines; the same prefix is simply run again
 			sc.Nontrivial++ // counts divergence retries
@@ -469,7 +487,12 @@ func Explore(t *testing.T, cfg *Config, res *vk.Result, deadline time.Time) {
 			sc.Note = "goroutines of the system under test were left blocked on channels when an execution ended (" + r.leak + ")"
 		}
 		if r.diverged != "" {
-			res.EngineError("%s: divergence while replaying prefix %v: %s", cfg.Name, it.prefix, r.diverged)
+			// not replayable even after retries: nondeterminism the explorer does not own
+			// (perkeep's own select among ready channels, map iteration order, ...)
+			diverged++
+			if diverged <= 2 {
+				res.EngineError("%s: divergence while replaying prefix %v: %s", cfg.Name, it.prefix, r.diverged)
+			}
 			sc.Exhaustive = false
 			continue
 		}
@@ -495,7 +518,7 @@ func Explore(t *testing.T, cfg *Config, res *vk.Result, deadline time.Time) {
 			n := r.nodes[i]
 			for alt := n.N - 1; alt >= 1; alt-- {
 				c, cc := cost, it.ccost
-				if n.Preempt {
+				if n.Preempt || cfg.DelayBound {
 					if n.Data && cfg.ChoiceBound > 0 {
 						cc++
 					} else {
